@@ -37,11 +37,15 @@ OkLegals(L, o)   == ExactlyOnce(o.legals, Codes(L))
 OkFreshLen(L, o) == o.len = Cardinality(L) /\ o.empty = (L = {})
 \* C02: the projected successor is the one the rules prescribe
 OkPos(p, o)      == PosOfJson(o.pos) = p /\ o.raw_ok
-\* C03: check flag, status, checking pieces
-OkCheck(p, L, o) == o.chk = InCheck(p) /\ SeqToSet(o.cks) = Checkers(p)
+\* C03: check flag, status
+OkCheck(p, L, o) == o.chk = InCheck(p)
+\* the set of checking pieces is internal state (read through a hook): a disagreement with the model is drift
+OkCheckers(p, o) == SeqToSet(o.cks) = Checkers(p)
 OkStatus(p, L, o) == o.st = ClassifyWith(L, InCheck(p), p.hm)
 \* C04: the hash is the function of the position that Hash.tla defines
-OkHash(p, o)     == o.zob = Zobrist(p) /\ o.phash = PieceHash(p.b)
+OkHash(p, o)     == o.zob = Zobrist(p)
+\* the piece-only part of the hash is internal state (hook): drift
+OkPieceHash(p, o) == o.phash = PieceHash(p.b)
 \* C05: the text is the canonical FEN
 OkFen(p, o)      == o.fen = ToFEN(p)
 \* C03/C05: the position rebuilt from its own text is indistinguishable
@@ -73,7 +77,9 @@ Checks(p, L, o) ==
     Fail("C05", "twin-equal", InTextRange(p) => OkTwinEqual(o)) \cup
     Fail("C04", "twin-hash", InTextRange(p) => OkTwinHash(o)) \cup
     Fail("C03", "twin-derived", InTextRange(p) => OkTwinDerived(o)) \cup
-    Fail("DRIFT", "pins", k => OkPins(p, o))
+    Fail("DRIFT", "pins", k => OkPins(p, o)) \cup
+    Fail("DRIFT", "checkers", k => OkCheckers(p, o)) \cup
+    Fail("DRIFT", "piece-hash", OkPieceHash(p, o))
 
 \* the legality probe over all 20480 triples, when the event carries one
 ProbeChecks(L, e) ==
